@@ -37,7 +37,7 @@ class TLCResult:
         self.distinct = int(m[-1][1]) if m else 0
         self.ok = rc == 0 and "No error has been found" in out
         self.invariant_violated = re.findall(r"Invariant (\S+) is violated", out)
-        self.property_violated = ("Temporal properties were violated" in out) or bool(
+        self.property_violated = bool(re.search(r"Temporal propert(y|ies) .*violated", out)) or bool(
             re.findall(r"Action property (\S+) is violated", out))
         self.deadlock = "Deadlock reached" in out
         self.printed = re.findall(r"^(<<.*>>|\".*\")$", out, re.M)
